@@ -14,7 +14,13 @@ import (
 	"golang.org/x/tools/go/ssa"
 )
 
-const verifDir = "/verif"
+// verifDir is /verif; GOVC_VERIF points a development run at a scratch copy (never used by the registered commands).
+var verifDir = func() string {
+	if d := os.Getenv("GOVC_VERIF"); d != "" {
+		return d
+	}
+	return "/verif"
+}()
 
 // PropConfig (from /verif/props.json) says which packages carry a property's contracts
 // and which sweeps belong to it.
@@ -654,6 +660,9 @@ func writeEvidence(res *CheckResult, wall float64, seed int, cfg *PropConfig) er
 		"govc itself (VC generation, memory model of DESIGN section 2.4)",
 		"SMT solvers z3 4.8.12 / z3-new 5.1.0 / cvc5 1.0.3",
 		"intrinsics: math/big (exact integers), sync/atomic (no-ops), fmt.Errorf/errors.New (non-nil error), fmt.Sprintf (uninterpreted function of its arguments)",
+		"intrinsics: sync.Map as a finite map per (object, field) (Load/Store/Delete exact; Range with iteration invariants runs the callback on every key once when it always returns true, and must not change the key set)",
+		"intrinsics: hashicorp/golang-lru Cache as a finite map WITHOUT eviction, identified by its pointer (Add/Get/Peek/Contains/Remove/Purge/Len exact below capacity; recency order not modelled)",
+		"intrinsics: range over a Go map hands out every key of the map exactly once in an arbitrary order (visited set; when the visited set equals the key set at the exit, the number of iterations is the map's length)",
 	}
 	trusted = append(base, trusted...)
 	var unspec []string
